@@ -173,7 +173,10 @@ def scalar_messages(chk, drv):
     """every scalar kind in a one-field message: bytes vs the reference encoder and vs the model"""
     rng = chk.rng
     kinds = bpgen.SCALAR_T
-    schema = [bpgen.M("S%d" % i, [bpgen.F("v", rng.choice([1, 15, 16, 2047, 2048, 536870911]), t)]) for i, t in enumerate(kinds)]
+    # `v`: implicit presence (the default is not written); `o`: proto3 optional, so that EVERY value is
+    # written when set — zero, the empty string and both signed zeros included
+    schema = [bpgen.M("S%d" % i, [bpgen.F("v", rng.choice([1, 15, 16, 2047, 2048, 536870910]), t),
+                                  bpgen.F("o", 536870911 if i % 2 else 3, t, optional=True)]) for i, t in enumerate(kinds)]
     classes = bpgen.build_bp(schema)
     refs = bpgen.build_ref(schema)
     if drv:
@@ -181,16 +184,21 @@ def scalar_messages(chk, drv):
     n = 300 if chk.tier == "quick" else 5000
     lines, cases = [], []
     for ci, t in enumerate(kinds):
-        for _ in range(n):
-            v = bpgen.gen_scalar(rng, t)
+        vals = [bpgen.gen_scalar(rng, t) for _ in range(n)]
+        if t == "float":
+            vals += [("f32", 0), ("f32", 0x80000000), ("f32", 0), ("f32", 0x7fc00000), ("f32", 0x7f800000), ("f32", 0xff800000)]
+        if t == "double":
+            vals += [("f64", 0), ("f64", 1 << 63), ("f64", 0), ("f64", 0x7ff8000000000000), ("f64", 0x7ff0000000000000), ("f64", 0xfff0000000000000)]
+        for v in vals:
             cases.append((ci, t, v))
             lines.append("DUMP c16 c %d 1 0 %s" % (ci, bpgen.term(v)))
+            lines.append("DUMP c16 c %d 1 1 %s" % (ci, bpgen.term(v)))
     replies = drv.ask(lines) if drv else None
     for idx, (ci, t, v) in enumerate(cases):
         pv = bpgen.to_py(v, classes, t)
         m = classes[ci](v=pv)
         b = bytes(m)
-        chk.case(lines[idx], True, {"scalar": t, "value": bpgen.term(v), "bytes": b.hex()})
+        chk.case(lines[2 * idx], True, {"scalar": t, "value": bpgen.term(v), "bytes": b.hex()})
         chk.count("scalar_" + t)
         r = refs[ci]()
         if t == "enum":
@@ -207,8 +215,18 @@ def scalar_messages(chk, drv):
         back = classes[ci]().parse(b)
         if bpgen.obs_scalar(t, back.v) != bpgen.obs_scalar(t, pv) and not (t in ("float", "double") and pv == 0):
             chk.fail("scalar-roundtrip", {"type": t, "value": bpgen.term(v)}, bpgen.obs_scalar(t, back.v))
-        if replies and replies[idx] != (b.hex() or "-"):
-            chk.disagree("scalar dump", lines[idx], replies[idx], b.hex())
+        if replies and replies[2 * idx] != (b.hex() or "-"):
+            chk.disagree("scalar dump", lines[2 * idx], replies[2 * idx], b.hex())
+        # the same value in the explicit-presence field: always written, byte-identical to the reference — no exception for zeros
+        mo = classes[ci](o=pv)
+        bo = bytes(mo)
+        ro = refs[ci]()
+        ro.o = int(pv) if t == "enum" else pv
+        rbo = ro.SerializeToString()
+        if bo != rbo and not (t in ("float", "double") and pv != pv):      # NaN payloads: struct.pack keeps them, compare below through the model
+            chk.fail("scalar-bytes-differ-from-reference", {"type": t, "value": bpgen.term(v), "field": "optional"}, "%s vs %s" % (bo.hex(), rbo.hex()))
+        if replies and replies[2 * idx + 1] != (bo.hex() or "-"):
+            chk.disagree("scalar dump (optional field)", lines[2 * idx + 1], replies[2 * idx + 1], bo.hex())
 
 
 def classify(failure, known):
